@@ -209,7 +209,13 @@ func (e *Effects) analyseMust(fn *ssa.Function) *MustSummary {
 						readLoc(w, l, pos)
 					}
 					if k, ok := constInt(cc.Args[0]); ok && k == 1 {
-						if arr := fullArrayCopy(cc.Args[1], cc.Args[2]); arr != nil {
+						// ConstantTimeCopy panics unless len(x) == len(y): on return, x is
+						// entirely overwritten; x = arr[:] then defines the whole array
+						if ds, ok := cc.Args[1].(*ssa.Slice); ok && ds.Low == nil && ds.High == nil {
+							if _, isArr := ds.X.Type().Underlying().(*types.Pointer); isArr {
+								addWrite(w, r.addrLocs(ds.X))
+							}
+						} else if arr := fullArrayCopy(cc.Args[1], cc.Args[2]); arr != nil {
 							addWrite(w, r.addrLocs(arr))
 						}
 					}
